@@ -95,7 +95,7 @@ def nonneg0(facts,t):
         if t[0]=='absdiff': return True
         if t[0]=='cast': return nonneg0(facts,t[1])
         if t[0]=='ncast': return True
-        if t[0]=='satsub': return True
+        if t[0]=='satsub': return len(t)>3 and t[3]=='u'      # only the unsigned saturating_sub is bounded below by 0
         if t[0]=='add': return nonneg0(facts,t[1]) and nonneg0(facts,t[2])
     return False
 def nonneg(facts,t):
@@ -216,7 +216,7 @@ def lin_range(t,facts):
             U=None if U is None else U+c
             continue
         klo=lo.get(k); khi=hi.get(k)
-        if klo is None and isinstance(k,tuple) and k and k[0] in('satsub','absdiff','ncast'): klo=0
+        if klo is None and isinstance(k,tuple) and k and (k[0] in('absdiff','ncast') or (k[0]=='satsub' and len(k)>3 and k[3]=='u')): klo=0
         if klo is None and isinstance(k,tuple) and k and k[0]=='unk' and isinstance(k[1],str) and k[1].startswith('digits@'): klo=1
         a_lo,a_hi=(klo,khi) if c>0 else (khi,klo)
         L = None if (L is None or a_lo is None) else L+c*a_lo
@@ -723,7 +723,8 @@ class An:
         if re.search(r'cmp::Ord::cmp$',d) and T(0) and T(1): v=('ord',T(0),T(1))
         elif re.search(r'cmp::max$|cmp::Ord::max$',d) and T(0) and T(1): v=('max',T(0),T(1))
         elif re.search(r'cmp::min$|cmp::Ord::min$',d) and T(0) and T(1): v=('min',T(0),T(1))
-        elif re.search(r'saturating_sub$',d) and T(0) and T(1): v=('satsub',T(0),T(1))
+        elif re.search(r'saturating_sub$',d) and T(0) and T(1):
+            v=('satsub',T(0),T(1),'u') if re.search(r'impl u(8|16|32|64|128|size)>::saturating_sub$',(res or '')+'|'+d.replace('|','')) or re.search(r'impl u(8|16|32|64|128|size)>::saturating_sub',res or d) else ('satsub',T(0),T(1))
         elif re.search(r'arithmetic::diff$',d) and T(0) and T(1): v=('tuple',[('ord',T(0),T(1)),('absdiff',T(0),T(1))])
         elif re.search(r'NonZero(::<[^>]*>)?::get$',d) and args and isterm(args[0]): v=args[0]
         elif re.search(r'ops::Deref::deref$|ops::DerefMut::deref_mut$|convert::AsRef::as_ref$|borrow::Borrow::borrow$',d) and raw and isinstance(args[0],(IntV,Rec)): v=raw[0]
